@@ -10,8 +10,10 @@ _SCHED_RULE = (
 
 _RVS = {
     "real": ["thejoker python modules (staged from /repo working tree)", "CJokerHelper compiled kernel", "twobody C", "h5py", "PyTables", "astropy", "numpy Generator/PCG64/SeedSequence", "dill", "pymc/pytensor priors", "schwimmbad.SerialPool (observed)"],
-    "simulated": ["processing pool scheduling + transport (SimPool stands in for schwimmbad.MultiPool)", "worker processes: in-process and data-isolated by reduce/dill copies on the shared/reduce/dill transports; REAL worker processes (fresh interpreters, stepped one chunk at a time, so the interleaving stays the simulator's decision) on the 'proc' transport (1-3% of map calls; pool stat proc_chunks counts them; not used by C03/C13)"],
+    "simulated": ["processing pool scheduling + transport (SimPool stands in for schwimmbad.MultiPool)", "worker processes: in-process and data-isolated by reduce/dill copies on the shared/reduce/dill transports, with per-worker overlays for whatever a worker writes into thejoker's module-level state on reduce/dill (the parent and other workers never see it); REAL worker processes (fresh interpreters, stepped one chunk at a time, so the interleaving stays the simulator's decision) on the 'proc' transport (1-3% of map calls; pool stat proc_chunks counts them; not used by C03/C13)"],
     "none": ["clock/timers: the package has none"],
+    "concurrent_callers": ["C02/C05/C06/C14: in 12-15% of programs a second caller (another TheJoker, real SerialPool) makes a whole call while the first is inside pool.map -- same process or forked sibling (os.getpid seam, module state of the run start), optionally suspended mid-call in a baton-passed thread and resumed after the first caller's op; probes second_caller_* count them",
+                           "the user's data may be handed over in non-canonical form (explicit t_ref in UTC/TDB, surveys in mixed velocity units); the references L*/A* are then computed from a canonical copy converted by astropy in the harness"],
 }
 _RVS_DEFAULT = _RVS
 _RVS_STUB = dict(_RVS, stubbed_in_a_fraction_of_runs=["kernel OUTPUT of designated library rows overridden to -inf (sim/llproxy.py) in ~15% of runs, counted by the probe runs_with_neg_inf_profile_stub; everything else in those runs is the real kernel"])
@@ -22,15 +24,15 @@ META = {
         "technique": "deterministic simulation: seeded pool schedules/transports + call histories, row-at-a-time reference oracle",
         "level_text": "Seeded exploration of execution paths x schedules x call histories on the real code: every marginal_ln_likelihood path must return the "
         "row-at-a-time fresh-helper reference L* in input order (bitwise where both sides share a conversion), equal seeds must accept the same rows on every path, "
-        "and a long-lived helper driven through random likelihood/posterior/pickle interleavings must keep returning L*. Histories include: other data sets / libraries / posterior stages on the same TheJoker, one shared file name rewritten with another library (other units, other row count, also in append+overwrite mode), a survey replaced inside the same data container, setup_mcmc between calls, equal-seed call SEQUENCES under different batching (accepted set must agree at every step), real worker processes (proc transport); monitors: the user's library and data objects must not be edited, objects returned earlier must not change later; a sample of seeds is re-executed in fresh interpreters and must give the same outputs. Sampling, not proof: a clean batch is evidence.",
+        "and a long-lived helper driven through random likelihood/posterior/pickle interleavings must keep returning L*. Histories include: other data sets / libraries / posterior stages on the same TheJoker, one shared file name rewritten with another library (other units, other row count, also in append+overwrite mode), a survey replaced inside the same data container, setup_mcmc between calls, equal-seed call SEQUENCES under different batching (accepted set must agree at every step), real worker processes (proc transport); monitors: the user's library and data objects must not be edited, objects returned earlier must not change later; a sample of seeds is re-executed in fresh interpreters and must give the same outputs. Equal-seed iterative_rejection_sample twins across cache/file, pools and transports must accept the same rows; a second caller interleaved at the pool seam (same process / forked sibling / suspended mid-call) must get what it gets alone and must not disturb the first; options are also passed as numpy integers / np.bool_. Sampling, not proof: a clean batch is evidence.",
         "level_note": "Trusts: numpy/h5py/PyTables/astropy/dill; SimPool's model of multiprocess pools (by-value chunks, any completion order, results in task order); "
-        "L* is computed by the system's own kernel so kernel arithmetic is out of scope (C01). Worker isolation is data-level only (one interpreter).",
+        "L* is computed by the system's own kernel so kernel arithmetic is out of scope (C01). Worker isolation on the in-process transports covers the task data and thejoker's module-level attributes; anything else per-process only on the proc transport.",
         "design_ref": "DESIGN.md section 4 / C05",
         "rule": _SCHED_RULE + "C05 compares the same library rows through 5-9 execution paths per run (in-memory / cache / file, n_batches below/equal/above N, "
         "SerialPool / SimPool) with random call histories in between, against the row-at-a-time fresh-helper reference L*.",
         "assumptions": [
             "L* uses the system's own kernel: nothing is asserted about the kernel's arithmetic (C01 not claimed)",
-            "worker processes are simulated in one interpreter: data isolation (reduce/dill copies) is faithful, per-process module state is shared",
+            "worker processes are simulated in one interpreter: data isolation (reduce/dill copies) is faithful; module-level state of thejoker.* written by a worker is kept per worker on reduce/dill (overlay), other per-process state (class attributes, third-party modules) is shared except on the proc transport",
             "bitwise equality is required wherever both sides use the same conversion; 1e-8 relative on ll only between pack() and read_batch() conversions of non-internal units",
         ],
     },
@@ -94,7 +96,7 @@ META = {
         "technique": "fault enumeration inside deterministic simulation: every call event of the sampling entry points failed at its k-th occurrence (sys.monitoring), plus pool/worker/transport/RNG faults; leak, user-file-hash, propagation and follow-up-call oracles",
         "level_text": "For each sampled workload (entry point x cache-or-user-file x pool kind x options) the crash-point index k is ENUMERATED over all call events made inside thejoker during the call (runs of > 8 identical consecutive sites thinned to 6), "
         "with five rotating exception kinds incl. KeyboardInterrupt, plus worker-before/after x abort/continue, pool.map broken, unserialisable task, and k-th generator draw failing. After each trial: the exception reached the caller with the injected error on its chain, "
-        "no temp cache file remains (by name -- '.hdf5'/'.h5' anywhere -- or HDF5 signature), the user file's SHA-256/size/mtime are unchanged, and the same TheJoker object repeats the call bit-identically to a fresh twin. A swallowed fault counts only if the result differs from the fault-free result of the same seed. Workloads also cover: prior samples requested by count (bounded sample of crash points, call sites in prior.py preferred), an empty library object (the call fails by itself: natural failing exit path), a user file kept inside the sampler's tempfile_path after an earlier call, pool life-cycle (close/terminate => 'Pool not running'), worker exceptions that pickle but cannot be rebuilt in the parent (a real pool would hang).",
+        "no temp cache file remains (by name -- '.hdf5'/'.h5' anywhere -- or HDF5 signature), the user file's SHA-256/size/mtime are unchanged, and the same TheJoker object repeats the call bit-identically to a fresh twin. A swallowed fault counts only if the result differs from the fault-free result of the same seed. An OSError about the cache file raised by clean-up code that replaces the propagating error (real error only as implicit __context__) is a violation too. 15% of workloads run with the caller as a process forked after the import (os.getpid seam); 30% of user-file workloads name the file by a non-normalised path. Workloads also cover: prior samples requested by count (bounded sample of crash points, call sites in prior.py preferred), an empty library object (the call fails by itself: natural failing exit path), a user file kept inside the sampler's tempfile_path after an earlier call, pool life-cycle (close/terminate => 'Pool not running'), worker exceptions that pickle but cannot be rebuilt in the parent (a real pool would hang).",
         "level_note": "Complete over k per sampled workload up to the stated thinning rule; workloads are sampled. Calls made inside the Cython kernel are not call events (covered via the RNG seam). Leak clause waived only when the failed call is the cleanup os.unlink itself.",
         "design_ref": "DESIGN.md section 4 / C13",
         "rule": "One case = one workload whose crash points are enumerated. evaluations counts workloads; distinct_nontrivial counts distinct (entry point, call site file:function->callee, exception kind) and (entry point, non-call fault kind, position) tuples at which a fault actually FIRED.",
